@@ -15,7 +15,9 @@
 //!    `record_kind` / `basis_digest` by a digest of their own; a header mutation
 //!    decodes to a *different* envelope with a *different* id. That is accepted
 //!    as long as the id differs and record extraction from it is refused or
-//!    yields the original records (counted, not flagged).
+//!    yields the original records (counted, not flagged);
+//!  * an embedded self-contained payload must be labelled with the retained-material record it
+//!    was exported for: identical bytes under a different semantic coordinate are an alias.
 
 use std::collections::{BTreeMap, BTreeSet};
 use std::fmt::Debug;
@@ -120,7 +122,7 @@ impl Cx<'_> {
         *self.errs.entry(format!("{validator}:{c}")).or_insert(0) += 1;
         c
     }
-    /// Run repository code; a panic is a violation (`C20:wsc:panic:<site>`), reported once per site per case.
+    /// Run repository code; a panic is a violation (`C20:wsc:panic:<site>`).
     fn guarded<T>(&mut self, site: &str, f: impl FnOnce() -> T) -> Option<T> {
         match catch_unwind(AssertUnwindSafe(f)) {
             Ok(v) => Some(v),
@@ -638,11 +640,11 @@ impl<'a> Port<'a> {
 impl WscCasBlobStorePort for Port<'_> {
     fn cas_blob_bytes(&self, content_hash: &Hash) -> Option<Vec<u8>> {
         match &self.fault {
-            Fault::Withhold(t) if t == content_hash && std::env::var("WSC_SELFTEST").as_deref() != Ok("port-serves-withheld") => {
+            Fault::Withhold(t) if t == content_hash => {
                 self.hit.set(true);
                 None
             }
-            Fault::Replace(t, bytes) if t == content_hash && std::env::var("WSC_SELFTEST").as_deref() != Ok("port-serves-good-bytes") => {
+            Fault::Replace(t, bytes) if t == content_hash => {
                 self.hit.set(true);
                 Some(bytes.clone())
             }
@@ -1393,7 +1395,7 @@ fn check_self_contained_tamper(cx: &mut Cx, rng: &mut Rng, h: &History, other: &
             cx.rep.count("sc_segment_tampers_tried", 1);
             let mut segs = handed.segs.clone();
             for s in &mut segs {
-                if s.segment_id == seg.id && std::env::var("WSC_SELFTEST").as_deref() != Ok("no-segment-tamper") {
+                if s.segment_id == seg.id {
                     s.segment_bytes = bad.clone();
                 }
             }
@@ -1562,12 +1564,14 @@ fn tamper_after_export<E: Exp>(
                 if !record_slot {
                     // identical bytes under a different semantic coordinate / record: the validator matched by content digest only
                     let got_p = sorted_payloads(payloads);
-                    let same_bytes = *slot == Slot::RetainedMaterial
-                        && got_p.len() == want_payloads.len()
-                        && got_p.iter().zip(&want_payloads).all(|((gm, gb), (wm, wb))| gb == wb && gm.material_digest == wm.material_digest);
+                    let known = |gm: &RetainedMaterialRecord| h.recs.mat.iter().any(|m| m.material_digest == gm.material_digest);
+                    let same_coordinate = |gm: &RetainedMaterialRecord| {
+                        h.recs.mat.iter().any(|m| m.material_digest == gm.material_digest && m.semantic_coordinate_digest == gm.semantic_coordinate_digest)
+                    };
+                    let same_bytes = *slot == Slot::RetainedMaterial && !got_p.is_empty() && got_p.iter().all(|(gm, gb)| b3(gb) == gm.material_digest && known(gm));
                     let class = if !same_bytes {
                         "splice-accepted-foreign-material"
-                    } else if got_p.iter().zip(&want_payloads).any(|((gm, _), (wm, _))| gm.semantic_coordinate_digest != wm.semantic_coordinate_digest) {
+                    } else if got_p.iter().any(|(gm, _)| !same_coordinate(gm)) {
                         "payload-coordinate-aliased"
                     } else {
                         "payload-record-relabelled"
@@ -1718,7 +1722,10 @@ fn check_altered_roots(cx: &mut Cx, rng: &mut Rng, h: &History, ex: &Exports, ca
                         cx.rep.count(&format!("relocated_root_accepted_{name}"), 1);
                     }
                 }
-                Some(Err(c)) => cx.rep.count(&format!("altered_root_answer_{profile}_{name}_{c}"), 1),
+                Some(Err(c)) => {
+                    cx.rep.count(&format!("altered_root_answer_{profile}_{c}"), 1);
+                    cx.rep.observe("altered_root_fields_refused", name);
+                }
                 None => {}
             }
         }
